@@ -157,6 +157,9 @@ func inconsistentDeviationSets() []Set {
 		{"unique-leaf-not-supported", `deviation /b:top/b:li/b:u { deviate not-supported; }`},
 		{"choice-default-case-not-supported", `deviation /b:top/b:ch/b:s { deviate not-supported; }`},
 		{"mandatory-choice-with-default", `deviation /b:top/b:ch { deviate add { mandatory true; } }`},
+		{"not-supported-twice-in-one-deviation", `deviation /b:top/b:d { deviate not-supported; deviate not-supported; }`},
+		{"not-supported-twice-in-two-deviations", `deviation /b:top/b:m { deviate not-supported; } deviation /b:top/b:ro { deviate not-supported; } deviation /b:top/b:ro/b:x { deviate not-supported; }`},
+		{"not-supported-then-add", `deviation /b:top/b:ll { deviate not-supported; deviate add { default x; } }`},
 	}
 	var out []Set
 	for _, d := range devs {
